@@ -20,6 +20,9 @@ func runExtra(p *Prog, spec string) ([]*Obligation, []string) {
 	if strings.HasPrefix(spec, "regexincl:") {
 		return regexInclusion(p, filepath.Join(verifDir(), "specs", strings.TrimPrefix(spec, "regexincl:")))
 	}
+	if strings.HasPrefix(spec, "substrincl:") {
+		return substrInclusion(p, filepath.Join(verifDir(), "specs", strings.TrimPrefix(spec, "substrincl:")))
+	}
 	return nil, []string{"unknown extra engine " + spec}
 }
 
